@@ -205,4 +205,32 @@ example :
     let t := [SIGUSR1, SIGINT].foldl catchSignal st.traps
     waitSigintShortcut [SIGUSR1, SIGINT] t = true ∧ pendingCommands t = [(SIGUSR1, 1)] := by decide
 
+/-! ## 6. `$?` across an action that changes it and then diverts (round-8 seed) -/
+
+/-- `run_trap` restores `$?` on EVERY way the action can end except `Interrupt`: whatever `$?` the action left
+    (`false; return`, `! :; return`, `(exit 7); break` …) and whatever divert it ends in — `Return`, `Exit`,
+    `Break`/`Continue` (`other`), `Abort`, with or without a status — the caller's `$?` is back and the divert is
+    passed on unchanged; the status the receiver of the divert then assigns is the divert's own (`return N` → N)
+    or, without one, that restored `$?` (`return` → the `$?` of before the trap). -/
+theorem run_trap_restores_status_on_every_divert (body : Body) (c : Nat) (exit : Int) (t : TrapMap) (d : Divert)
+    (hd : (body c exit t).1.divert = some d) (hni : ∀ st, d ≠ .interrupt st) :
+    (runTrap body c exit t).1 = exit
+    ∧ (runTrap body c exit t).2.1 = some d
+    ∧ d.payload.getD (runTrap body c exit t).1 = d.payload.getD exit := by
+  have h1 := run_trap_restores_status body c exit t (fun st h => hni st (by rw [hd] at h; exact (Option.some.inj h)))
+  refine ⟨h1, ?_, by rw [h1]⟩
+  unfold runTrap
+  simp only [hd]
+  cases d with
+  | interrupt st => exact absurd rfl (hni st)
+  | ret st => rfl
+  | exit st => rfl
+  | other => rfl
+  | abort st => rfl
+
+/-- non-vacuity: `false; return` at `$?` = 4 -/
+example :
+    let body : Body := fun _ _ t => ({ exit := 1, divert := some (.ret none) }, t)
+    (runTrap body 0 4 []).1 = 4 ∧ (Divert.ret none).payload.getD (runTrap body 0 4 []).1 = 4 := by decide
+
 end YashModel.Trap
